@@ -24,6 +24,8 @@ type chainState struct {
 	XAppend, XFirst, YIn bool
 	Marks                map[string]bool // fail-y-exit, fail-y-timeout, fail-y-noout, fail-x-exit, w-destroyed, w-broken
 	NoCachePos           string          // "", "x", "y"  (fixed per universe)
+	Queue                bool            // universe with num_workers=1 and three extra independent targets
+	Minimal              bool            // universe built with --load-outputs=minimal
 }
 
 func (c chainState) clone() chainState {
@@ -45,7 +47,7 @@ func (c chainState) key() string {
 		}
 	}
 	sort.Strings(ms)
-	return fmt.Sprintf("%v%v%v|%s|%s", c.XAppend, c.XFirst, c.YIn, strings.Join(ms, ","), c.NoCachePos)
+	return fmt.Sprintf("%v%v%v|%s|%s|%v|%v", c.XAppend, c.XFirst, c.YIn, strings.Join(ms, ","), c.NoCachePos, c.Queue, c.Minimal)
 }
 
 func (c chainState) xIn() string {
@@ -80,13 +82,14 @@ func (c chainState) source() *hist.Source {
 		return nil
 	}
 	xCmd := traceStart + `
-if [ -e "$VMARK/fail-x-exit" ]; then echo "x fails on purpose"; exit 1; fi
+if [ -e "$VMARK/fail-x-exit" ]; then echo "fail $GROG_TARGET" >> "$VTRACE"; echo "x fails on purpose"; exit 1; fi
 cut -c1 x.in | tr -d '\n' > x.out
 echo "end $GROG_TARGET" >> "$VTRACE"`
 	s.Targets = append(s.Targets, hist.Target{Pkg: "p", Name: "x", Command: xCmd, Inputs: []string{"x.in"}, Outputs: []string{"x.out"}, Tags: tags("x")})
 	yCmd := traceStart + `
-if [ -e "$VMARK/fail-y-exit" ]; then echo "y fails on purpose"; exit 3; fi
+if [ -e "$VMARK/fail-y-exit" ]; then echo "fail $GROG_TARGET" >> "$VTRACE"; echo "y fails on purpose"; exit 3; fi
 if [ -e "$VMARK/fail-y-timeout" ]; then sleep 30; fi
+printf 'y2' > y2.out
 if [ -e "$VMARK/fail-y-noout" ]; then rm -f y.out; echo "end $GROG_TARGET" >> "$VTRACE"; exit 0; fi
 printf 'y(%s,%s)' "$(cat x.out)" "$(cat y.in)" > y.out
 echo "end $GROG_TARGET" >> "$VTRACE"`
@@ -96,11 +99,17 @@ echo "end $GROG_TARGET" >> "$VTRACE"`
 	if c.Marks["fail-y-timeout"] {
 		yTimeout = "1s"
 	}
-	s.Targets = append(s.Targets, hist.Target{Pkg: "p", Name: "y", Command: yCmd, Inputs: []string{"y.in"}, Outputs: []string{"y.out"}, Deps: []string{":x"}, Timeout: yTimeout, Tags: tags("y")})
+	s.Targets = append(s.Targets, hist.Target{Pkg: "p", Name: "y", Command: yCmd, Inputs: []string{"y.in"}, Outputs: []string{"y.out", "y2.out"}, Deps: []string{":x"}, Timeout: yTimeout, Tags: tags("y")})
 	zCmd := traceStart + `
 printf 'z(%s)' "$(cat y.out)" > z.out
 echo "end $GROG_TARGET" >> "$VTRACE"`
 	s.Targets = append(s.Targets, hist.Target{Pkg: "p", Name: "z", Command: zCmd, Outputs: []string{"z.out"}, Deps: []string{":y"}})
+	if c.Queue {
+		for _, n := range []string{"i1", "i2", "i3"} {
+			s.Targets = append(s.Targets, hist.Target{Pkg: "p", Name: n, Command: traceStart + "\nprintf '" + n + "' > " + n + ".out", Outputs: []string{n + ".out"}, Inputs: []string{"y.in"}})
+		}
+		s.Toml = "num_workers = 1\n"
+	}
 	// w: its postcondition is an external condition ($VMARK/version must read 1),
 	// which its command establishes unless w-broken is set
 	wCmd := traceStart + `
@@ -120,8 +129,8 @@ type chainOp struct {
 }
 
 type chainModel struct {
-	Cache  map[string]string // state key -> "yes" | "maybe"
-	Taint  map[string]bool
+	Cache map[string]string // state key -> "yes" | "maybe"
+	Taint map[string]bool
 }
 
 func (m chainModel) clone() chainModel {
@@ -157,15 +166,17 @@ func (n *cnode) key() string {
 }
 
 type chainEngine struct {
-	c        *Ctx
-	grog     string
-	slowGrog string // binary whose TaintCache.Clear is delayed (adverse schedule of the detached goroutine)
-	base     string
-	ops      []chainOp
-	maxOps   int
-	noCache  []string
-	builds   int64
-	mu       sync.Mutex
+	c              *Ctx
+	grog           string
+	slowGrog       string // binary whose TaintCache.Clear is delayed (adverse schedule of the detached goroutine)
+	base           string
+	ops            []chainOp
+	maxOps         int
+	noCache        []string
+	universes      []chainState // template states (Queue / Minimal flags); crossed with noCache
+	relabelMinimal bool
+	builds         int64
+	mu             sync.Mutex
 }
 
 func marksDir(b *hist.Box) string { return filepath.Join(b.Dir, "marks") }
@@ -359,17 +370,33 @@ func (e *chainEngine) doOp(n *cnode, op chainOp) *cnode {
 		grog = e.slowGrog
 	}
 	pred, failed, after := e.predict(n.st, &model, cacheDisabled)
-	rr := box.Run(grog, hist.RunOpts{Args: append([]string{"build", "//p/..."}, op.Args...), Env: env})
+	buildArgs := append([]string{"build", "//p/..."}, op.Args...)
+	if n.st.Minimal {
+		buildArgs = append(buildArgs, "--load-outputs=minimal")
+	}
+	rr := box.Run(grog, hist.RunOpts{Args: buildArgs, Env: env})
 	e.mu.Lock()
 	e.builds++
 	e.mu.Unlock()
 	replay := map[string]any{"history": histNow, "state": n.st, "grog_output_tail": tail(rr.Output, 1500), "trace": rr.Trace, "predicted": pred}
 	vio := func(sig, format string, a ...any) {
-		e.c.R.Violate(vc.Violation{Sig: sig, Detail: fmt.Sprintf("history %v: ", histNow) + fmt.Sprintf(format, a...), Replay: replay})
+		mode := ""
+		if n.st.Minimal {
+			mode = " (load_outputs=minimal)"
+			if e.relabelMinimal && len(sig) > 4 && !strings.HasPrefix(sig, "C03:") {
+				// the same oracle under minimal mode decides C15 (same verdicts and executed sets as mode all)
+				sig = "C15:minimal-mode:" + sig[4:]
+			}
+		}
+		e.c.R.Violate(vc.Violation{Sig: sig, Detail: fmt.Sprintf("history %v%s: ", histNow, mode) + fmt.Sprintf(format, a...), Replay: replay})
 	}
 	executed := map[string]bool{}
 	for _, l := range rr.Started() {
-		executed[strings.TrimPrefix(l, "//p:")] = true
+		t := strings.TrimPrefix(l, "//p:")
+		if executed[t] {
+			vio("C03:target-executed-twice-in-one-build:"+l, "%s was executed more than once in one build; trace %v", l, rr.Trace)
+		}
+		executed[t] = true
 	}
 	if rr.TimedOut {
 		vio("C04:build-hangs:after:"+last, "grog build did not exit within the ceiling")
@@ -442,6 +469,22 @@ func (e *chainEngine) doOp(n *cnode, op chainOp) *cnode {
 			vio(sig+":after:"+last, "//p:%s was executed although the cache holds a successful result for its current state and nothing forces it; executed=%s", t, fmtSet(executed))
 		}
 	}
+	if failFast && n.st.Queue && len(failed) > 0 {
+		// with one worker at most one queued command can race with the recording of the failure;
+		// two or more commands starting after the failing command reported its failure means
+		// fail-fast did not stop the queue
+		after, seenFail := 0, false
+		for _, l := range rr.Trace {
+			if strings.HasPrefix(l, "fail ") {
+				seenFail = true
+			} else if seenFail && strings.HasPrefix(l, "start ") {
+				after++
+			}
+		}
+		if after >= 2 {
+			vio("C05:targets-start-after-fail-fast-failure", "--fail-fast with num_workers=1: %d commands started after the first failure had happened; trace %v", after, rr.Trace)
+		}
+	}
 	wantFail := len(failed) > 0
 	if wantFail && rr.Exit == 0 {
 		sig := "C05:failure-not-reported"
@@ -476,6 +519,10 @@ func (e *chainEngine) doOp(n *cnode, op chainOp) *cnode {
 		// outputs must be the deterministic function of the sources
 		want := map[string]string{"p/x.out": n.st.xOut(), "p/y.out": n.st.yOut(), "p/z.out": n.st.zOut(), "p/w.out": "w"}
 		for p, w := range want {
+			tname := strings.TrimSuffix(strings.TrimPrefix(p, "p/"), ".out")
+			if n.st.Minimal && !executed[tname] {
+				continue // minimal mode does not promise to materialise outputs of restored targets
+			}
 			b, err := os.ReadFile(filepath.Join(box.WS(), p))
 			if err != nil || string(b) != w {
 				vio("C01:output-differs-from-clean-build://"+strings.Replace(strings.TrimSuffix(p, ".out"), "/", ":", 1)+":after:"+last, "%s is %q (err=%v), a from-scratch build produces %q", p, string(b), err, w)
@@ -530,76 +577,78 @@ func contains(l []string, s string) bool {
 
 func (e *chainEngine) run() {
 	states := int64(0)
-	for _, nc := range e.noCache {
-		root, err := hist.NewBox(e.base)
-		if err != nil {
-			e.c.R.BrokenCheck("scratch: %v", err)
-			return
-		}
-		start := &cnode{box: root, st: chainState{Marks: map[string]bool{}, NoCachePos: nc}, model: chainModel{Cache: map[string]string{}, Taint: map[string]bool{}}}
-		start.boxKey = chainBoxKey(root)
-		seen := map[string]bool{start.key(): true}
-		frontier := []*cnode{start}
-		states++
-		for depth := 0; depth < e.maxOps && len(frontier) > 0; depth++ {
-			type job struct {
-				n  *cnode
-				op chainOp
-				c  *cnode
+	for _, uni := range e.universes {
+		for _, nc := range e.noCache {
+			root, err := hist.NewBox(e.base)
+			if err != nil {
+				e.c.R.BrokenCheck("scratch: %v", err)
+				return
 			}
-			var jobs []*job
-			for _, n := range frontier {
-				for _, op := range e.ops {
-					if op.Kind != "build" && e.maxOps-depth < 2 {
+			start := &cnode{box: root, st: chainState{Marks: map[string]bool{}, NoCachePos: nc, Queue: uni.Queue, Minimal: uni.Minimal}, model: chainModel{Cache: map[string]string{}, Taint: map[string]bool{}}}
+			start.boxKey = chainBoxKey(root)
+			seen := map[string]bool{start.key(): true}
+			frontier := []*cnode{start}
+			states++
+			for depth := 0; depth < e.maxOps && len(frontier) > 0; depth++ {
+				type job struct {
+					n  *cnode
+					op chainOp
+					c  *cnode
+				}
+				var jobs []*job
+				for _, n := range frontier {
+					for _, op := range e.ops {
+						if op.Kind != "build" && e.maxOps-depth < 2 {
+							continue
+						}
+						if op.Kind == "taint" && n.built == nil {
+							continue
+						}
+						jobs = append(jobs, &job{n: n, op: op})
+					}
+				}
+				var wg sync.WaitGroup
+				sem := make(chan struct{}, 48)
+				for _, j := range jobs {
+					wg.Add(1)
+					sem <- struct{}{}
+					go func(j *job) {
+						defer wg.Done()
+						defer func() { <-sem }()
+						j.c = e.doOp(j.n, j.op)
+					}(j)
+				}
+				wg.Wait()
+				var next []*cnode
+				keep := map[*hist.Box]bool{}
+				for _, j := range jobs {
+					if j.c == nil {
 						continue
 					}
-					if op.Kind == "taint" && n.built == nil {
+					if seen[j.c.key()] {
+						if j.c.box != j.n.box {
+							j.c.box.Remove()
+						}
 						continue
 					}
-					jobs = append(jobs, &job{n: n, op: op})
+					seen[j.c.key()] = true
+					next = append(next, j.c)
 				}
-			}
-			var wg sync.WaitGroup
-			sem := make(chan struct{}, 48)
-			for _, j := range jobs {
-				wg.Add(1)
-				sem <- struct{}{}
-				go func(j *job) {
-					defer wg.Done()
-					defer func() { <-sem }()
-					j.c = e.doOp(j.n, j.op)
-				}(j)
-			}
-			wg.Wait()
-			var next []*cnode
-			keep := map[*hist.Box]bool{}
-			for _, j := range jobs {
-				if j.c == nil {
-					continue
+				for _, n := range next {
+					keep[n.box] = true
 				}
-				if seen[j.c.key()] {
-					if j.c.box != j.n.box {
-						j.c.box.Remove()
+				for _, n := range frontier {
+					if !keep[n.box] {
+						n.box.Remove()
 					}
-					continue
 				}
-				seen[j.c.key()] = true
-				next = append(next, j.c)
-			}
-			for _, n := range next {
-				keep[n.box] = true
+				states += int64(len(next))
+				vc.Logf("universe queue=%v minimal=%v no-cache=%q depth %d: %d transitions, %d new states", uni.Queue, uni.Minimal, nc, depth+1, len(jobs), len(next))
+				frontier = next
 			}
 			for _, n := range frontier {
-				if !keep[n.box] {
-					n.box.Remove()
-				}
+				n.box.Remove()
 			}
-			states += int64(len(next))
-			vc.Logf("no-cache=%q depth %d: %d transitions, %d new states", nc, depth+1, len(jobs), len(next))
-			frontier = next
-		}
-		for _, n := range frontier {
-			n.box.Remove()
 		}
 	}
 	e.c.R.AddCounts(0, states, 0, 0)
@@ -636,7 +685,7 @@ func chainCheck(prop string, keep []string, quickOps, thoroughOps int, configure
 		base, cleanup := scratchBase(c, strings.ToLower(prop))
 		defer cleanup()
 		sub := vc.NewReport(prop, c.Tier)
-		e := &chainEngine{c: &Ctx{R: sub, Tier: c.Tier, Thorough: c.Thorough}, grog: grog, base: base, maxOps: quickOps, noCache: []string{""}}
+		e := &chainEngine{c: &Ctx{R: sub, Tier: c.Tier, Thorough: c.Thorough}, grog: grog, base: base, maxOps: quickOps, noCache: []string{""}, universes: []chainState{{}}}
 		if c.Thorough {
 			e.maxOps = thoroughOps
 		}
@@ -698,6 +747,7 @@ func init() {
 		c.R.Rule = "breadth-first search over histories of <= n operations from {destroy / break the externally checked condition of //p:w, make //p:y exit non-zero | exceed its timeout | not create its declared output, edit, grog build} by the REAL binary; reference model: success is reported and cached only if exit 0 within the timeout, outputs exist and checks pass; a cached result with a now-failing output check forces execution; a check still failing after execution fails the build and caches nothing (the follow-up build attempts the target again). Non-trivial = a build that executed some but not all targets."
 		c.R.Assume("the checked condition is an external marker outside the declared inputs/outputs", "timeout mode uses timeout=1s against a 30 s sleep; wall-clock enters only through grog's own timeout handling, never through the oracle")
 		chainCheck("C14", []string{"C14:", "C05:failed-target-not-attempted-again"}, 4, 5, func(e *chainEngine, thorough bool) {
+			e.universes = []chainState{{}, {Minimal: true}}
 			e.ops = []chainOp{markOp("w-destroyed"), markOp("w-broken"), markOp("fail-y-exit"), markOp("fail-y-noout"), opEditFirst, opBuild}
 			if thorough {
 				e.ops = append(e.ops, markOp("fail-y-timeout"))
